@@ -570,7 +570,13 @@ def listOracle (c : Case) (impl : String) : String :=
 
 def cursorOf (res : String) : String := (((res.splitOn ":cur=").getD 1 "").splitOn ";").headD ""
 
-def twiceOracle (impl : String) : String :=
+/-- the error `e` (`E[]body`, as a combinator returns it) after the transforms of the `n` contexts
+pushed on the initial context (tags 90, 91, …; innermost first) -/
+def withInitialTags (n : Nat) (e : String) : String :=
+  if n == 0 || !e.startsWith "E[]" then e else
+  "E[" ++ ".".intercalate ((List.range n).reverse.map fun i => toString (90 + i)) ++ "]" ++ (e.drop 3).toString
+
+def twiceOracle (nctx : Nat) (impl : String) : String :=
   match impl.splitOn "#" with
   | [a, b] =>
     match parseObs a, parseObs b with
@@ -587,7 +593,8 @@ def twiceOracle (impl : String) : String :=
         else []
       let p3 := if ra.startsWith "err:" then
           let e := (ra.drop 4).toString
-          (if rb == ra || ob.sink.head? == some e then []
+          -- the diagnostic is what the sink receives: the error after the transforms of the context
+          (if rb == ra || ob.sink.head? == some (withInitialTags nctx e) then []
            else [s!"(c) sink-less parse fails with {e}; with a sink the result is {(rb.splitOn ":cur=").headD rb} and the first diagnostic {ob.sink.head?}"])
         else []
       let ps := p1 ++ p2 ++ p3
@@ -684,11 +691,16 @@ def run (fam : String) (fields : List String) : String × String :=
       else if fam == "bracket" then bracketOracle c impl
       else if fam == "recover" then recoverOracle c impl
       else if fam == "list" then listOracle c impl
-      else if fam == "twice" then twiceOracle impl
+      else if fam == "twice" then twiceOracle c.nctx impl
       else if fam == "errors" then errorsOracle c impl
       else if fam == "term" then termOracle impl
       else if fam == "nopanic" then nopanicOracle impl
       else "ok"
+    -- a recorded finding is attributed only when the implementation behaves exactly as the Lean
+    -- model of the pinned code does (the model reproduces every recorded finding): a changed
+    -- behaviour inside the same class of inputs is reported as a violation of its own
+    let verdict := if impl == mo then verdict else
+      (verdict.replace "F07r-flag-left-set-by-failed-recovery " "").replace "F21-bad-last-segment-without-abort-token " ""
     -- cross-cutting clauses, evaluated on every grammar-level case
     -- C03: every span captured in a value is canonical
     let spanVals := ((firstResult impl).splitOn "sp(").drop 1 |>.filterMap fun ch => parseDotSpan ((ch.splitOn ",").headD "")
